@@ -1,6 +1,6 @@
 SPECIFICATION Spec
 CONSTANTS
-  MaxLen = 6
+  MaxLen = 5
 INVARIANTS Sized NoTie
 CONSTRAINT Emit
 CHECK_DEADLOCK FALSE
